@@ -40,13 +40,13 @@ type wexpr struct {
 
 type wfn struct {
 	where    string
-	recv     string            // receiver variable
-	recvTy   string            // Lean structure name
-	arrLen   int               // 0: the mask is a single word
-	vars     map[string]wty    // locals and parameters
-	others   map[string]bool   // parameters of the receiver's type
-	lets     []string          // emitted let lines
-	inRange  []string          // index conditions (dynamic indices)
+	recv     string          // receiver variable
+	recvTy   string          // Lean structure name
+	arrLen   int             // 0: the mask is a single word
+	vars     map[string]wty  // locals and parameters
+	others   map[string]bool // parameters of the receiver's type
+	lets     []string        // emitted let lines
+	inRange  []string        // index conditions (dynamic indices)
 	mutated  bool
 	hasIndex bool
 }
@@ -271,12 +271,18 @@ func (f *wfn) binary(x *ast.BinaryExpr, ctx wty) wexpr {
 func (f *wfn) composite(x *ast.CompositeLit) wexpr {
 	switch t := x.Type.(type) {
 	case *ast.ArrayType:
-		if src(t.Elt) != "uint64" || f.arrLen == 0 || src(t.Len) != strconv.Itoa(f.arrLen) || len(x.Elts) != f.arrLen {
+		if src(t.Elt) != "uint64" || f.arrLen == 0 || src(t.Len) != strconv.Itoa(f.arrLen) || (len(x.Elts) != f.arrLen && len(x.Elts) != 0) {
 			return f.bad(x, "array literal")
 		}
 		var parts []string
 		for _, el := range x.Elts {
+			if _, keyed := el.(*ast.KeyValueExpr); keyed {
+				return f.bad(x, "keyed array literal")
+			}
 			parts = append(parts, f.coerce(f.expr(el), tU64).s)
+		}
+		for len(parts) < f.arrLen { // `[4]uint64{}`: Go's zero value
+			parts = append(parts, f.coerce(wexpr{"0", tLit}, tU64).s)
 		}
 		return wexpr{"(Words.Arr" + strconv.Itoa(f.arrLen) + ".mk " + strings.Join(parts, " ") + ")", tArr}
 	case *ast.Ident:
@@ -471,7 +477,17 @@ func checkNewMask(p *pkgFiles, file, name string) {
 		return
 	}
 	rs, ok := fd.Body.List[1].(*ast.RangeStmt)
-	if !ok || src(rs.X) != "ids" || len(rs.Body.List) != 1 || src(rs.Body.List[0]) != "mask.Set(id.id)" {
+	good := false
+	if ok && src(rs.X) == "ids" && len(rs.Body.List) == 1 && rs.Tok == token.DEFINE {
+		body := src(rs.Body.List[0])
+		switch {
+		case rs.Value != nil && src(rs.Key) == "_": // for _, id := range ids { mask.Set(id.id) }
+			good = body == "mask.Set("+src(rs.Value)+".id)"
+		case rs.Value == nil && rs.Key != nil: // for i := range ids { mask.Set(ids[i].id) }
+			good = body == "mask.Set(ids["+src(rs.Key)+"].id)"
+		}
+	}
+	if !good {
 		problem("%s: loop is not `for _, id := range ids { mask.Set(id.id) }`", where)
 	}
 	if src(fd.Body.List[2]) != "return mask" {
